@@ -876,6 +876,23 @@ class Gen:
         return out
 
 
+def growbits_cross_prefix(cfgd):
+    """a growing bit set (vector<bool>, DynamicBitset) whose long key is prefix-related to a long key of ANOTHER member handler:
+    through the recorded finding 'abbreviations are resolved per member' a value meant for the other argument (for instance
+    a negative number) can reach the bit set as a position; the allocation of 2^64 bits is refused by the address
+    sanitizer's allocator with a fatal report instead of std::bad_alloc - an artefact of the sensor, kept out of the inputs."""
+    args = cfgd["args"]
+    for a in args:
+        if a["kind"] in GROWBITS and a["l"]:
+            la = S(a["l"])
+            for b in args:
+                if b is not a and b["l"] and b.get("grp", 0) != a.get("grp", 0):
+                    lb = S(b["l"])
+                    if la.startswith(lb) or lb.startswith(la):
+                        return True
+    return False
+
+
 def subgroup_scenario(g, groups=1):
     """one configuration built around sub-groups plus abstract lines that walk through the documented behaviour: sub-group key as
     last word, words behind the sub-group that belong to the main handler (keys, a free value for the positional argument),
